@@ -121,6 +121,22 @@ CLAIMED["C02"] = dict(
     technique="Lean 4 loop-invariant proofs + Mathlib normed-algebra exponential bound + model/implementation correspondence",
     ref="DESIGN.md §5 C02")
 
+CLAIMED["C07"] = dict(
+    text="Lean 4 proof over any commutative ring / field, every dimension and component count: the operator form "
+         "K rho Ld + L rho Kd - Kd L rho - rho Ld K equals the action of the assembled four-index tensor on every operator "
+         "(applyOps_eq_apply), the two generators used by the propagation loops coincide for every list of components, hence "
+         "operator-form and tensor-form propagation store identical states for every order, refinement, step and number of stored "
+         "times (propagate_ops_eq_tensor). Tied to the code by the operator-form model run against ReducedDensityMatrixPropagator "
+         "with the code's own K, Lambda, Lambda^+ (1e-16), and by the oracle on API-built Redfield twins and random Lindblad twins: "
+         "apply on random non-Hermitian operators inside/outside eigenbasis_of, convert_2_tensor (time independent and time dependent, "
+         "then used in another basis), dynamics, the time-dependent tensor at t=0 and at its last index vs the time-independent tensor, "
+         "coarse propagation axes with partial refinement, and uncoupled sites vs exp(-iwt-g(t)). Partial: the limits of the time-"
+         "dependent tensor and the analytic pure-dephasing comparison (time-step error) are measured, not proved.",
+    note="Lean kernel + standard axioms; model validated on generated inputs; spline quadrature / c2g are externals. Known finding "
+         "(open): time-dependent OPERATOR-form propagation on an axis coarser than the bath axis samples the tensor at wrong times.",
+    technique="Lean 4 algebraic identity + congruence of the propagation loops + correspondence and API oracle",
+    ref="DESIGN.md §5 C07")
+
 NOT_APPLICABLE = {}
 
 
